@@ -239,6 +239,11 @@ def xfReply (ws : List String) : String :=
 
 def handle (line : String) : String :=
   match Wire.words line with
+  | ["ftab"] =>
+    -- the function table as translated from the source (a harness built without the crate's hooks has no other
+    -- access to it): `<utf8 hex of the name | ->:<argc>` per index
+    " ".intercalate ((List.range Gen.ftab.size).map fun i =>
+      s!"{Wire.hexOrDash (Gen.ftab.getD i "").toUTF8.toList}:{Gen.ftabArgc.getD i 0}")
   | ["col", n] => match n.toNat? with
     | some n => String.ofList (pushColumn n)
     | none => "bad-request"
